@@ -711,6 +711,8 @@ func (fc *FuncCtx) contractCall(fr *Frame, st *State, com *ssa.CallCommon, key s
 		}
 		return append(append([]*Term{}, pc...), hints...)
 	}
+	// the caller's own clauses for this call come first: once proved they are cuts and may discharge callee preconditions
+	fc.callSiteClauses(st, env, cshort, ord, ins, hints)
 	// callee preconditions
 	calleeEnv := &Env{v: v, vars: env.vars, lets: map[string]string{}, st: st, old: st}
 	for _, l := range spec.Lets {
@@ -735,7 +737,6 @@ func (fc *FuncCtx) contractCall(fr *Frame, st *State, com *ssa.CallCommon, key s
 		}
 		st.assume(c, t)
 	}
-	fc.callSiteClauses(st, env, cshort, ord, ins, hints)
 	res := com.Signature().Results()
 	// pure / defined functions
 	if pf, ok := v.pureByKey[key]; ok && res.Len() == 1 && (spec.Pure || spec.Def != nil) && len(spec.Modifies) == 0 {
